@@ -431,7 +431,7 @@ package analysis
 //@   ensures forall i int, N *types.Named :: 0 <= i && i < len(p.Types.Scope().Names()) && enumConst(p, p.Types.Scope().Names()[i], N) ==> has(outEnums, N)
 //@   ensures forall c *types.Named, i, j int :: 0 <= i && i < nameCount(p.Types.Scope()) && namedTypeAt(p, nameAt(p.Types.Scope(), i), c) && isItf(c) && 0 <= j && j < nameCount(p.Types.Scope()) && (exists m *types.Named :: namedTypeAt(p, nameAt(p.Types.Scope(), j), m) && isMember(m, c)) ==> has(outUnions, c)
 //@   -- one step of the walk: the enums of every directly imported package that the selector does not ignore are recorded
-//@   -- too (the unbounded statement needs reachability over the Imports field: bounded harness)
+//@   -- too (kept although walkedOK subsumes it: a small, directly readable obligation)
 //@   ensures forall k string, i int, N *types.Named :: has(p.Imports, k) && !selector.Ignore(p.Imports[k]) && 0 <= i && i < len(p.Imports[k].Types.Scope().Names()) && enumConst(p.Imports[k], p.Imports[k].Types.Scope().Names()[i], N) ==> has(outEnums, N)
 //@   ensures forall k string, c *types.Named, i, j int :: has(p.Imports, k) && !selector.Ignore(p.Imports[k]) && 0 <= i && i < nameCount(p.Imports[k].Types.Scope()) && namedTypeAt(p.Imports[k], nameAt(p.Imports[k].Types.Scope(), i), c) && isItf(c) && 0 <= j && j < nameCount(p.Imports[k].Types.Scope()) && (exists m *types.Named :: namedTypeAt(p.Imports[k], nameAt(p.Imports[k].Types.Scope(), j), m) && isMember(m, c)) ==> has(outUnions, c)
 //@   loop fetchPkgEnums(p).1 visited doneE
@@ -461,8 +461,7 @@ package analysis
 //@   loop p.Imports.1 invariant forall N *types.Named :: before(has(outUnions, N)) ==> has(outUnions, N)
 
 // Enums are real nodes, union keys are named types; every enum and every union of the ROOT package is in the result.
-// (That the same holds for every package reached through the imports needs a reachability relation over a heap
-// field, which the spec language cannot state: bounded harness of fetchEnumsAndUnions, always run.)
+// The same for every package reached through non-ignored imports, in closed-set form (walkedOK above).
 //@ func fetchEnumsAndUnions
 //@   props C10 C11
 //@   requires pkgsOK(pa)
